@@ -6,7 +6,8 @@ from ..gen.tape import Tape, tapes
 from ..oracle import latexscan, skeleton
 from .c08 import hostile
 
-PAYLOAD = ['$', '#', '{', '}', '&', '_', '%', '^', '\\', '~', '\\\\', '\\{', '\\}', '\\$', '\\%', '\\_', '\\&', '\\#', '\\^',
+PAYLOAD = ['\uff05', '\uff5b', '\uff5d', '\uff04', '\uff3c', '\uff03', '\uff06', '\uff3f', '\uff3e', '\ufe6a', '\ufe5b', '\ufe5c', '\ufe68',      # full-width / small forms of the specials: they are ordinary text
+           '$', '#', '{', '}', '&', '_', '%', '^', '\\', '~', '\\\\', '\\{', '\\}', '\\$', '\\%', '\\_', '\\&', '\\#', '\\^',
            '&#92;', '&#123;', '&#125;', '&#36;', '&amp;', '&lt;', '\\end{document}', '\\begin{x}', '\\end{lstlisting}',
            '\\verb|x|', '\\textbf{', '$$', '^^M', '%%', '{}', 'a', 'b', 'x', ' ', '/', ':', '"', "'", '(', ')', '[', ']', '`',
            '*', '|', '!', '=', '+', '<', '>', 'é']
